@@ -229,8 +229,11 @@ StringDictionaryRPHTFC::StringDictionaryRPHTFC(IteratorDictString *it,
 
     for (bucket = 1; bucket <= buckets; bucket++) {
       // Checking the available space in textStrings and
-      // realloc if required
-      while ((bytesStrings + (bucketsize * 1000)) > reservedStrings)
+      // realloc if required: every symbol of the header and of the internal
+      // strings takes, at most, four bytes
+      size_t needed = 4 * headers[bucket].size() +
+                      4 * (beginnings[bucket] - beginnings[bucket - 1]) + 8;
+      while ((bytesStrings + needed) > reservedStrings)
         reservedStrings = Reallocate(&textStrings, reservedStrings);
 
       bytes = 0;
